@@ -32,7 +32,8 @@ ArchCalls ==
      [m |-> "have_modules_with_names_matching", regex |-> <<"regex">>]}
     \cup {[m |-> "containing_modules", names |-> ns, list |-> l] :
              ns \in {<<A>>, <<B>>}, l \in BOOLEAN}
-    \cup {[m |-> "containing_modules", names |-> <<A, B>>, list |-> TRUE]}
+    \cup {[m |-> "containing_modules", names |-> <<A, B>>, list |-> TRUE],
+          [m |-> "containing_modules", names |-> <<>>, list |-> TRUE]}
 
 \* "arch3": three layers and three modules, calls alternating layer(..) / containing_modules(..) - all definitions
 \* with up to three layers (needed for guards that must look at EVERY earlier layer, not only the previous one)
@@ -40,7 +41,8 @@ C3 == <<"r", "c">>
 Arch3Calls(n) ==
     IF n % 2 = 0 THEN {[m |-> "layer", name |-> nm] : nm \in {"L1", "L2", "L3"}}
     ELSE {[m |-> "containing_modules", names |-> <<x>>, list |-> l] : x \in {A, B, C3}, l \in BOOLEAN}
-             \cup {[m |-> "have_modules_with_names_matching", regex |-> <<"regex">>]}
+             \cup {[m |-> "have_modules_with_names_matching", regex |-> <<"regex">>],
+                   [m |-> "containing_modules", names |-> <<>>, list |-> TRUE]}
 
 Defined == {"L1", "L2"}
 LRuleCalls ==
@@ -92,7 +94,8 @@ ArchAlwaysWF == Which \in {"arch", "arch3"} => ArchWF(st)
 \* LayeredArchitecture: the definition lists exactly what accepted calls supplied, in order (C16)
 ArchIsHistory ==
     Which \in {"arch", "arch3"} =>
-      LET acc == SelectSeq(hist, LAMBDA h : h.out = "ok" /\ h.c.m \in {"containing_modules", "have_modules_with_names_matching"})
+      LET acc == SelectSeq(hist, LAMBDA h : h.out = "ok" /\ (h.c.m = "have_modules_with_names_matching"
+                                                              \/ (h.c.m = "containing_modules" /\ h.c.names # <<>>)))
       IN /\ Len(st.layers) = Len(acc)
          /\ \A i \in DOMAIN acc : st.layers[i].items = (IF acc[i].c.m = "containing_modules" THEN acc[i].c.names ELSE <<acc[i].c.regex>>)
 \* LayerRule: at most one subject layer, ever (C16)
